@@ -19,7 +19,7 @@ impl Monitor for C11 {
     fn sizes(&self, tier: Tier) -> Sizes { match tier { Tier::Quick => Sizes { cases: 3_000, min_nontrivial: 10_000 }, Tier::Thorough => Sizes { cases: 150_000, min_nontrivial: 500_000 } } }
 
     fn generate(&self, rng: &mut Rng, _tier: Tier) -> J {
-        let (mut case, _t, mut sel, shape) = gen_base(rng, &BaseCfg { shapes: &[Shape::Plain, Shape::Distinct, Shape::Aggregate, Shape::Aggregate, Shape::Aggregate], allow_limit: false, allow_having: true, agg_distinct: true, order_insensitive_only: false, exact_data: true, min_lines: 3, max_lines: 30, not_null_column: false });
+        let (mut case, _t, mut sel, shape) = gen_base(rng, &BaseCfg { shapes: &[Shape::Plain, Shape::Distinct, Shape::Aggregate, Shape::Aggregate, Shape::Aggregate], allow_limit: false, allow_having: true, agg_distinct: true, order_insensitive_only: false, exact_data: true, min_lines: 3, max_lines: 30, not_null_column: false, big_rate: 100, big_lines: 500 });
         if shape == Shape::Aggregate && rng.chance(1, 3) { let keys = sel.group_by.clone().unwrap_or_default(); sel.projs.retain(|(e, _)| !keys.contains(e)); if sel.projs.is_empty() { sel.projs.push((E::Agg("count".into(), false, vec![E::Star]), None)); } sel.distinct = true; case["stmt"] = json!(sel.text(Paren::Full)); }
         case
     }
@@ -38,7 +38,17 @@ impl Monitor for C11 {
         let mut shown = RowsOut::empty();
         let mut prev_batch = RowsOut::empty();
         let mut changes = 0;
+        // big cases: the comparison with a fresh batch run is made at the first and last five lines and at every step-th line
+        let step = (upto / 25).max(1);
+        let mut prev_valid = true;
         for k in 1..=upto {
+            if upto > 80 && !(k <= 5 || k + 5 > upto || k % step == 0) {
+                if aggregate { if let Some(t) = &outs[k - 1].out { shown = t.clone(); } }
+                prev_valid = false;
+                continue;
+            }
+            if !prev_valid && !aggregate { prev_batch = match base.batch(&p, &base.lines[..k - 1]) { Ok(b) => b, Err(_) => break }; }
+            prev_valid = true;
             obs.evals += 1;
             let batch = match base.batch(&p, &base.lines[..k]) { Ok(b) => b, Err(eng::EngErr::Panic(pn)) => { vs.push(Violation::new(format!("incremental|{}|batch-panic:{}", feat, pn.class()), pn.describe())); break; } Err(_) => { vs.push(Violation::new(format!("incremental|{}|batch-fails-where-incremental-succeeds", feat), format!("{:?}: batch over the first {} lines fails, feeding them one by one does not", base.sql, k))); break; } };
             let o = &outs[k - 1];
